@@ -16,7 +16,8 @@ PROP = dict(
          "every bag of cells found in the repo's testdata directories (whole files, hex/base64 strings in JSON, BOCs "
          "embedded in binary lite-server answers), parsed by the real parser: all cells through the digest op "
          "cell.all and the direct oracle go.boc, roots and a sample of inner cells (exotic ones over-sampled) with "
-         "explicit answers; (6) level-mask helpers on all masks 0..7 x levels 0..5 and random 32-bit masks. "
+         "explicit answers; (5b) malformed stream: any type byte 0..7, any 3-bit mask, any data length, masks unrelated to "
+         "children (model = code exactly, and go.nopanic); (6) level-mask helpers on all masks 0..7 x levels 0..5 and random 32-bit masks. "
          "non-trivial = distinct table with >= 2 cells or an exotic root.",
     trusted_base=[
         "hand model lean/TongoModel/Cell.lean (levelStep/computeInfo/HashInfo.hashAt/depthAt/Table.infos) tied to "
@@ -31,8 +32,9 @@ PROP = dict(
         "the Go transcription of the definition harness/h/spechash.go used by the direct oracles",
     ],
     assumptions=[
-        "the model's data buffer is the ideal bit list (exactly ceil(len/8) bytes, bits beyond len zero); a Go cell "
-        "whose buffer carries data bits beyond len hashes differently (known finding: defect #7, BitString.ReadBits)",
+        "the model's cell buffer is the ideal bit list zero-padded to the 128 bytes every Go cell buffer spans (parsed "
+        "cells, NewCell, NewCellExotic, hook VerifNewCell); bits beyond len are zero (defect #7, BitString.ReadBits "
+        "leaving data bits beyond len, was fixed by agent bits: go.readbits checks it on every run)",
         "level masks are 3-bit (what a bag of cells can encode: d1 >> 5); masks > 7 only through lmask",
         "theorems are for every hash function H; nothing about SHA-256 is used (no collision-freedom needed for C02)",
         "mutation of a tree between two calls of the same Hasher is outside the property (CacheInv is the hypothesis "
@@ -46,8 +48,11 @@ PROP = dict(
                "immutableCell.Hash/Depth returns at levels 0..4 exactly the hashes/depths of the TON definition "
                "(Spec.hashAt/depthAt, written independently by recursion on cell and level) and Level() = bit length of "
                "the mask, for every hash function H; reprHash_eq_spec (Cell.Hash = hash at level 3); depth_limit "
-               "(ErrDepthIsTooBig iff a non-pruned cell would exceed depth 1024 at some level); no_panic_wf and the "
-               "witness panic_without_wf (a 2-byte pruned branch makes Hash() panic: relevant to C07); levelmask_facts / "
+               "(ErrDepthIsTooBig iff a non-pruned cell would exceed depth 1024 at some level); no_panic_wf, and "
+               "no_panic_any (with the 128-byte cell buffers hashing never panics on ANY tree with 3-bit masks, "
+               "whatever types/lengths/refs) with the witness short_pruned_reads_padding (a 2-byte pruned branch is "
+               "hashed from the zero padding of its buffer: outside WFExotic, where the definition does not apply); "
+               "levelmask_facts / "
                "levelmask_bits (finite table, kernel decide) and gen_levelmask tying the hand model of the mask helpers "
                "to definitions regenerated from boc/level_mask.go on every run; cache_sound / hash_structural (memoised "
                "hashing with any valid pointer-keyed table = plain recursion; result depends on the tree only); "
@@ -57,7 +62,7 @@ PROP = dict(
                "of every testdata BOC; the Lean SPEC itself vs Go on small trees (spec.levels); direct oracles on Go "
                "alone against a Go transcription of the definition (go.spec, go.boc), cached vs fresh (go.cached), "
                "hash unchanged by reads (go.reads), independent of how the cell was obtained (go.obtained: builder API, "
-               "serialise+parse; go.readbits: known finding defect #7).",
+               "serialise+parse; go.readbits), never a panic on malformed cells (go.nopanic).",
     level_note="assurance = min(theorems about the model, tie): the tie is differential (generated + all testdata), not a "
                "proof about the Go source; SHA-256 is a parameter in the theorems and the validated Lean implementation "
                "in the driver",
